@@ -368,11 +368,11 @@ def run_leaf(c) -> CaseResult:
 
 CHECK = Check(
     id="C20",
-    parts=[Part("functions", run_fn, strategy=fn_cases, budget={"quick": 120, "thorough": 4000}),
+    parts=[Part("functions", run_fn, strategy=fn_cases, budget={"quick": 240, "thorough": 4000}),
            Part("modules", run_mod, strategy=mod_cases, budget={"quick": 50, "thorough": 1500}),
            Part("compositions", run_comp, strategy=comp_cases, budget={"quick": 16, "thorough": 200}),
            Part("primitives", run_prim, strategy=prim_cases, budget={"quick": 120, "thorough": 3000}),
-           Part("leaf-tracer", run_leaf, strategy=leaf_cases, budget={"quick": 60, "thorough": 3000}),
+           Part("leaf-tracer", run_leaf, strategy=leaf_cases, budget={"quick": 120, "thorough": 3000}),
            Part("fx", run_fx, strategy=fx_cases, budget={"quick": 200, "thorough": 8000})],
     rule=("functions: every public function with C01's shapes / hyper-parameters / constraints in float32, float64, bfloat16, eager vs "
           "torch.compile(fullgraph=True) after torch._dynamo.reset(), backend aot_eager (quick) and inductor (1/13 of thorough cases); outputs "
